@@ -63,6 +63,11 @@ def run(F, R, tier):
             for s in b["stmts"]:
                 if s["k"] == "assign" and s["lhs"]["l"] == 0 and not s["lhs"]["p"] and s["rv"]["k"] == "agg" and s["rv"]["ak"].endswith("Option::None"):
                     none_blocks.add(bi)
+            # `x?` on an Option: the None answer is built by FromResidual::from_residual
+            t = b["term"]
+            if t["k"] == "call" and not t["dest"]["p"] and t["dest"]["l"] == 0 and "from_residual" in (t.get("callee") or t.get("decl") or "") \
+                    and "Option" in (B.local_ty(0) or ""):
+                none_blocks.add(bi)
         barriers = set()
         for bi, b in enumerate(B.blocks):
             t = b["term"]
